@@ -400,6 +400,7 @@ func runC11(c c11Case, info *c11Info) *failure {
 			}
 		}
 		// post-state: no corruption
+		d.Apply(model.Op{Kind: "SetFailure", Failure: "none"})
 		for _, tn := range d.TableNames() {
 			wb := d.Whitebox(tn)
 			if wb == nil {
@@ -407,6 +408,20 @@ func runC11(c c11Case, info *c11Info) *failure {
 			}
 			if !sameStrings(wb.SortedKeys, wb.DataKeys) {
 				return newFail("table state corrupted by concurrent use", "table %s: SortedKeys %q Data keys %q", tn, wb.SortedKeys, wb.DataKeys)
+			}
+		}
+		// the index of the main table holds exactly the stored items that carry its key
+		if tbl := d.Apply(model.Op{Kind: "Scan", Table: "tbl"}); tbl.Err == "" {
+			if ix := d.Apply(model.Op{Kind: "Scan", Table: "tbl", Index: "gidx"}); ix.Err == "" {
+				var want []model.Item
+				for _, it := range tbl.Items {
+					if v, ok := it["g1"]; ok && v.T == "S" {
+						want = append(want, it)
+					}
+				}
+				if !model.MultisetEqual(want, ix.Items) {
+					return newFail("table state corrupted by concurrent use", "run %d: index gidx holds %v, the table's items with the index key are %v", run, model.CanonItems(ix.Items), model.CanonItems(want))
+				}
 			}
 		}
 	}
@@ -446,7 +461,7 @@ func init() {
 	}
 }
 
-const ruleC11 = "rapid generates concurrent programs (sequential setup + 2-8 goroutines x 2-10 operations released from a barrier), each executed repeatedly on a fresh SDK v1 or v2 client in a binary built with the Go race detector (GORACE=halt_on_error), two thirds of them with a generated pause plan (the n-th passage through a verif yield point inside the table operations sleeps 1.5 ms while the client lock is held, which puts the mutex into hand-off mode so that a lock dropped and re-taken inside an operation is interleaved): 'data' programs over a tiny key space of counter items (PutItem, conditional PutItem attribute_not_exists, UpdateItem ADD 1, GetItem, DeleteItem ALL_OLD, conditional DeleteItem) and 'catalogue' programs (CreateTable / DeleteTable / DescribeTable on two names, N racing CreateTable on one fresh name) whose invoke/return-stamped histories, completed by final reads, are checked for linearizability with porcupine against the sequential counter-item / table-catalogue specification (this subsumes 'N concurrent ADD-1 yield N' and 'exactly one of N racing conditional puts succeeds', both also generated as dedicated programs); 'failure' programs (writers and readers on the counter items beside goroutines that switch the emulated failure on and off and read DescribeTable's item count inside the window), checked against the specification extended by the switch: once EmulateFailure has returned, no write may land until it is switched off; 'mixed' programs over every client method (CreateTable / DeleteTable / UpdateTable / DescribeTable, batch calls over one and two tables with and without ConsistentRead, TransactWriteItems, Query, Scan, ClearTable, failure toggling, GetNativeInterpreter / SetInterpreter / ActivateNativeInterpreter, data operations). Oracles: race detector report (the program being executed is recorded before it starts), runtime panic or fatal error, deadlock watchdog (a goroutine parked on a lock, condition or channel below a minidyn frame after 30 s), linearizability, SortedKeys/Data consistency afterwards. Non-trivial = program in which >= 2 goroutines touch the same key or the table catalogue; distinct = hash of the program."
+const ruleC11 = "rapid generates concurrent programs (sequential setup + 2-8 goroutines x 2-10 operations released from a barrier), each executed repeatedly on a fresh SDK v1 or v2 client in a binary built with the Go race detector (GORACE=halt_on_error), two thirds of them with a generated pause plan (the n-th passage through a verif yield point inside the table operations sleeps 1.5 ms while the client lock is held, which puts the mutex into hand-off mode so that a lock dropped and re-taken inside an operation is interleaved): 'data' programs over a tiny key space of counter items (PutItem, conditional PutItem attribute_not_exists, UpdateItem ADD 1, GetItem, DeleteItem ALL_OLD, conditional DeleteItem) and 'catalogue' programs (CreateTable / DeleteTable / DescribeTable on two names, N racing CreateTable on one fresh name) whose invoke/return-stamped histories, completed by final reads, are checked for linearizability with porcupine against the sequential counter-item / table-catalogue specification (this subsumes 'N concurrent ADD-1 yield N' and 'exactly one of N racing conditional puts succeeds', both also generated as dedicated programs); 'failure' programs (writers and readers on the counter items beside goroutines that switch the emulated failure on and off and read DescribeTable's item count inside the window), checked against the specification extended by the switch: once EmulateFailure has returned, no write may land until it is switched off; 'mixed' programs over every client method (CreateTable / DeleteTable / UpdateTable / DescribeTable, batch calls over one and two tables with and without ConsistentRead, TransactWriteItems, Query, Scan, ClearTable, failure toggling, GetNativeInterpreter / SetInterpreter / ActivateNativeInterpreter, data operations). Oracles: race detector report (the program being executed is recorded before it starts), runtime panic or fatal error, deadlock watchdog (a goroutine parked on a lock, condition or channel below a minidyn frame after 30 s), linearizability, SortedKeys/Data consistency and index-vs-table agreement afterwards. Non-trivial = program in which >= 2 goroutines touch the same key or the table catalogue; distinct = hash of the program."
 
 // c11Recorded: a failing program has been written to the replay file of this process.
 var c11Recorded bool
@@ -593,6 +608,8 @@ func TestC11(t *testing.T) {
 						{Kind: "NativeGet"},
 						{Kind: "NativeGet"},
 						{Kind: "NativeSet"},
+						{Kind: "BatchWrite", Batch: []model.TableBatch{{Table: "other", Reqs: []model.WriteReq{{Put: it}}}}},
+						{Kind: "BatchWrite", Batch: []model.TableBatch{{Table: "tbl", Reqs: []model.WriteReq{{Put: it}}}, {Table: "other", Reqs: []model.WriteReq{{Delete: c11Key("k2")}}}}},
 					}).Draw(rt, "mixedOp")
 					if j == 0 && rapid.IntRange(0, 2).Draw(rt, "startWithNativeGet") == 1 {
 						op = model.Op{Kind: "NativeGet"} // several goroutines fetch the interpreter first
